@@ -86,18 +86,19 @@ var plans = map[string]*plan{
 		Level: "exploration",
 		Rule: "byte at absolute position i of the stream is f(seed,i); the consumer verifies every byte it obtains at its own committed position, so loss, duplication, reordering, corruption or an overwrite of peeked-but-uncommitted bytes is a mismatch at a known offset. " +
 			"Sequential enumeration: ring sizes 16K/32K x 9 start offsets (around the wrap point and the 8 KiB block edge) x 8 chunk sizes (1,2,3,8191,8192,8193,size-1,size) x producer op (Write, WriteWait+WriteCommit, ReadFrom) x consumer op (Read, ReadPeek+ReadCommit, ReadWait+ReadCommit, WriteTo), three rounds each. " +
+			"Close cells: 2 sizes x 9 (offset, fill) states x producer op parked for space (1, 300, 8192 bytes more than free) x Close x consumer {Read, ReadPeek, ReadWait, slice peeked before the close and held}: what is drained afterwards must verify at its position, never exceed what was committed, Len() <= size, the held slice unchanged. " +
 			"Concurrent: one producer and one consumer goroutine, seeded op mixes, five chunk distributions, 3 ring sizes, GOMAXPROCS 2/4/16, with and without yields, also under the race detector; peeked slices re-verified after a yield before commit. distinct = cell coordinates / run configuration.",
-		Quick:          []batchSpec{{Test: "TestC14Seq", N: 4, Timeout: 10 * m}, {Test: "TestC14Conc", N: 8, Timeout: 10 * m}, {Test: "TestC14Conc", N: 6, Race: true, Timeout: 15 * m}},
-		Thorough:       []batchSpec{{Test: "TestC14Seq", N: 4, Timeout: 10 * m}, {Test: "TestC14Conc", N: 16, Timeout: 40 * m}, {Test: "TestC14Conc", N: 16, Race: true, Timeout: 60 * m}},
+		Quick:          []batchSpec{{Test: "TestC14Seq", N: 4, Timeout: 10 * m}, {Test: "TestC14Close", N: 4, Timeout: 10 * m}, {Test: "TestC14Conc", N: 8, Timeout: 10 * m}, {Test: "TestC14Conc", N: 6, Race: true, Timeout: 15 * m}},
+		Thorough:       []batchSpec{{Test: "TestC14Seq", N: 4, Timeout: 10 * m}, {Test: "TestC14Close", N: 4, Timeout: 10 * m}, {Test: "TestC14Conc", N: 16, Timeout: 40 * m}, {Test: "TestC14Conc", N: 16, Race: true, Timeout: 60 * m}},
 		EvalStats:      []string{"c14.seq.cells", "c14.conc.runs"},
-		Floors:         map[string]int64{"c14.seq.cells": 1400, "c14.conc.runs": 80, "c14.conc.bytes": 200 << 20, "c14.conc.wraps": 5000, "c14.conc.producer_blocks": 1000, "c14.conc.consumer_blocks": 100, "c14.conc.peeks": 100000, "classes": 300},
-		FloorsThorough: map[string]int64{"c14.seq.cells": 1400, "c14.conc.runs": 700, "c14.conc.bytes": 4 << 30, "classes": 300},
+		Floors:         map[string]int64{"c14.seq.cells": 1400, "c14.close.cells": 400, "c14.conc.runs": 80, "c14.conc.bytes": 200 << 20, "c14.conc.wraps": 5000, "c14.conc.producer_blocks": 1000, "c14.conc.consumer_blocks": 100, "c14.conc.peeks": 100000, "classes": 300},
+		FloorsThorough: map[string]int64{"c14.seq.cells": 1400, "c14.close.cells": 400, "c14.conc.runs": 700, "c14.conc.bytes": 4 << 30, "classes": 300},
 		Assumptions:    []string{"one producer goroutine and one consumer goroutine (the ring is SPSC by design)", "chunk sizes respect 'whose sum fits the buffer': a consumer never waits for more than size minus the producer's largest chunk"},
 	},
 	"C15": {
 		Level: "fault_enumeration",
 		Rule: "matrix: buffer state {empty, partial, full, wrapped-partial, wrapped-full, nearly-full} x operation {Read, ReadPeek, ReadWait, WriteTo, Write, WriteWait, WriteCommit, ReadFrom} x event {peer commits exactly enough, one byte short then the rest, Close once, Close twice, Close from two goroutines, Close also from the blocked side} x timing {after the call is parked in Cond.Wait; during a 5 ms yield between the call's last check and its Wait (lock held, delay only); the call held before taking the lock until the event has completed entirely}. " +
-			"Then Close and a later-calls probe of every exported method, one at a time. Verdict by goroutine state: a call is stuck when all scenario goroutines are parked on sync primitives with identical stacks in two snapshots and the driver has no action left. distinct = applicable cells.",
+			"A call that could only wait and was ended by Close must have returned io.EOF. Then Close and a later-calls probe of every exported method, one at a time. Verdict by goroutine state: a call is stuck when all scenario goroutines are parked on sync primitives with identical stacks in two snapshots and the driver has no action left. distinct = applicable cells.",
 		Quick:          []batchSpec{{Test: "TestC15", N: 16, Timeout: 15 * m}},
 		Thorough:       []batchSpec{{Test: "TestC15", N: 32, Timeout: 60 * m}},
 		EvalStats:      []string{"c15.cells"},
